@@ -184,6 +184,14 @@ def run(ctx):
         for g in gens.values():
             effs = [e for e in rules.effects_on(prog, g.fn, [g.stubs], scope=g.sc) if not g.in_build(e.node)]
             bad = [e for e in effs if e.kind != "ext:random.shuffle"]
+            # an exchange of two elements of the same list (`x[i], x[j] = x[j], x[i]`) keeps the multiset
+            def _is_swap(node):
+                st_ = g.par.stmt_of(node) if not isinstance(node, ast.stmt) else node
+                return isinstance(st_, ast.Assign) and len(st_.targets) == 1 and isinstance(st_.targets[0], ast.Tuple) and isinstance(st_.value, ast.Tuple) \
+                    and len(st_.targets[0].elts) == 2 and all(isinstance(e_, ast.Subscript) for e_ in st_.targets[0].elts) \
+                    and [txt(e_) for e_ in st_.targets[0].elts] == [txt(e_) for e_ in reversed(st_.value.elts)] \
+                    and txt(st_.targets[0].elts[0].value) == txt(st_.targets[0].elts[1].value)
+            bad = [e for e in bad if not _is_swap(e.node)]
             for e in bad:
                 o.violated(g.fn, e.node, f"{e.kind} on {e.path} changes the stub multiset (stubs dropped, duplicated or re-ordered)")
             if not bad:
